@@ -491,7 +491,15 @@ def run(ctx: Context) -> None:
         txt = ' '.join(norm_text(s) for s in he.body)
         ok = "if 'edge_dimension' in self.mesh_attributes: return True" in txt.replace('\n', ' ') and all(
             f"'{k}' in self.mesh_attributes and self.mesh_attributes['{k}'] in self.dataset.variables" in txt for k in ('edge_node_connectivity', 'edge_face_connectivity'))
-        ctx.check('R10.5', ok, "an edge dimension exists when declared, or implied by a supplied edge table present in the dataset", he, he.node)
+        # ... by EITHER table: the last return is the disjunction of the two tests (one supplied edge table is enough to number the edges)
+        rets_he = he.returns()
+        last_ = rets_he[-1].value if rets_he else None
+        either = isinstance(last_, ast.BoolOp) and isinstance(last_.op, ast.Or) and len(last_.values) == 2 and all(
+            any(f"'{k}' in self.mesh_attributes" in norm_text(v) for v in last_.values) for k in ('edge_node_connectivity', 'edge_face_connectivity'))
+        if not either and isinstance(last_, ast.Call) and isinstance(last_.func, ast.Name) and last_.func.id == 'any':
+            either = True
+        ctx.check('R10.5', ok and either, "an edge dimension exists when declared, or implied by a supplied edge table present in the dataset (either table is enough)", he, he.node,
+                  construct=f"has_edge_dimension: {norm_text(last_)[:120] if last_ is not None else '?'}")
         for name, dim in (('node_count', 'node_dimension'), ('face_count', 'face_dimension'), ('max_node_count', 'max_node_dimension')):
             fi = ctx.func(f"{TOPO}.{name}")
             ok = [norm_text(r.value) for r in fi.returns()] == [f"self.dataset.sizes[self.{dim}]"]
@@ -504,6 +512,7 @@ from ..variants import V  # noqa: E402
 
 _U = 'src/emsarray/conventions/ugrid.py'
 VARIANTS = [
+    V('C10', 'edge-dimension-needs-both-tables', 'src/emsarray/conventions/ugrid.py', "        return any(\n            key in self.mesh_attributes\n            and self.mesh_attributes[key] in self.dataset.variables", "        return all(\n            key in self.mesh_attributes\n            and self.mesh_attributes[key] in self.dataset.variables", 'R10.5'),
     V('C10', 'well-formed-face-node-table-refused', 'src/emsarray/conventions/ugrid.py', "        if actual != expected:\n            warnings.warn(\n                f\"Got a face_node_connectivity variable", "        if actual == expected:\n            warnings.warn(\n                f\"Got a face_node_connectivity variable", 'R10.9'),
     V('C10', 'one-based-not-shifted', 'src/emsarray/conventions/ugrid.py', "        if start_index != 0:\n            values = values - start_index", "        if start_index == 0:\n            values = values - start_index", 'R10.1'),
     V('C10', 'benign-shift-unconditional', 'src/emsarray/conventions/ugrid.py', "        if start_index != 0:\n            values = values - start_index", "        values = values - start_index", None),
